@@ -3,6 +3,7 @@
 package cache
 
 import (
+	"bytes"
 	"compress/gzip"
 	"crypto/sha256"
 	"encoding/gob"
@@ -236,7 +237,15 @@ func (bc *BuildCache) deserialize(c Cacheable, srcModTime time.Time, r io.Reader
 		}
 	}()
 
-	gd := gob.NewDecoder(zr)
+	// Decompress everything first: gzip verifies the checksum only when the
+	// stream is read to its end, and a corrupted payload must never reach
+	// the decoders.
+	data, err := io.ReadAll(zr)
+	if err != nil {
+		return buildTime, false, err
+	}
+
+	gd := gob.NewDecoder(bytes.NewReader(data))
 	if err := gd.Decode(&buildTime); err != nil {
 		return buildTime, false, err
 	}
